@@ -228,6 +228,7 @@ def translate(cfg, outdir):
                             ex = [x for x in f.get("inner", []) if x.get("kind") != "FullComment"]
                             if ex:
                                 em.field_inits[(cls, f["name"])] = ex[-1]
+        em.cur_tu = u["tu"]
         em.stop_at_call = u.get("stop_at_call")
         try:
             sig, text, unit = em.emit_function(node, cname, cls if node["kind"] != "FunctionDecl" else None, static)
@@ -412,6 +413,8 @@ def translate(cfg, outdir):
         h.append("static inline struct %s* %s(struct %s* a, struct %s* b) { *a = *b; return a; } /* implicit operator= */"
                  % (tag, cn, tag, tag))
     h.append("static inline void* vf_new_array(size_t n, size_t sz) { void* p = calloc(n, sz); __CPROVER_assume(p != 0); return p; }")
+    for cn, v in sorted(em.const_inits.items()):
+        h.append("enum { %s = %d }; /* const integral global of the real code, value read from its declaration */" % (cn, v))
     for cn, ct in sorted(em.globals.items()):
         h.append("extern %s %s;" % (ct, cn))
     news = []
